@@ -75,3 +75,26 @@ func (l *VerifLive) Close() {
 	l.C.Close()
 	l.S.cancel()
 }
+
+type verifFuncDialer struct {
+	dial func() (net.Conn, error)
+}
+
+func (d verifFuncDialer) DialHost(ctx context.Context, host *HostInfo) (*DialedHost, error) {
+	c, err := d.dial()
+	if err != nil {
+		return nil, err
+	}
+	return &DialedHost{Conn: c, DisableCoalesce: true}, nil
+}
+
+// VerifOpenSession is NewSession(cfg) with the unexported switch that leaves out the control connection
+// (the session then knows exactly the hosts of cfg.Hosts); every connection of the pool is made by dial.
+// Requests made on the returned Session take the whole public path: Query.Exec / Session.ExecuteBatch ->
+// Session.executeQuery / executeBatch -> queryExecutor -> host policy -> pool -> Conn.executeQuery / executeBatch.
+func VerifOpenSession(cfg ClusterConfig, dial func() (net.Conn, error)) (*Session, error) {
+	cfg.disableControlConn = true
+	cfg.HostDialer = verifFuncDialer{dial}
+	cfg.Logger = verifNopLogger{}
+	return NewSession(cfg)
+}
